@@ -79,6 +79,57 @@ pub fn c12(args: &Args) {
             out.emit(row(op, b));
         }
     }
+    // native sweep over ALL operand pairs of every binary operator impl (selection only): a row in which any entry departs from
+    // plain integer arithmetic is promoted to a judged row event -- so a fault confined to a handful of the 151 M pairs is seen in
+    // the quick tier too (TLC judges the promoted row like any other)
+    if !thorough {
+        let ops = ["add", "sub", "mul", "add_assign", "sub_assign", "mul_assign", "multiply", "div"];
+        let mut handles = vec![];
+        for t in 0..16i32 {
+            handles.push(std::thread::spawn(move || {
+                crate::common::install_panic_hook();
+                let mut found: Vec<(&'static str, i16)> = vec![];
+                // modular inverses by the extended Euclid of the harness (for "div")
+                let inv = |b: i64| -> i64 { let (mut r0, mut r1, mut s0, mut s1) = (Q as i64, b, 0i64, 1i64); while r1 != 0 { let k = r0 / r1; (r0, r1) = (r1, r0 - k * r1); (s0, s1) = (s1, s0 - k * s1); } s0.rem_euclid(Q as i64) };
+                for b in (t..Q).step_by(16) {
+                    let bi = inv(b as i64);
+                    for (oi, op) in ops.iter().enumerate() {
+                        if *op == "div" && b == 0 {
+                            continue;
+                        }
+                        let mut bad = false;
+                        for a in 0..Q {
+                            let want = match oi { 0 | 3 => (a + b) % Q, 1 | 4 => (a - b).rem_euclid(Q), 7 => ((a as i64 * bi) % Q as i64) as i32, _ => ((a as i64 * b as i64) % Q as i64) as i32 };
+                            let got = guarded(|| match oi {
+                                0 => verif::felt_add(a as i16, b as i16),
+                                1 => verif::felt_sub(a as i16, b as i16),
+                                2 => verif::felt_mul(a as i16, b as i16),
+                                _ => verif::felt_op2(op, a as i16, b as i16),
+                            });
+                            if !matches!(got, Outcome::Ret(g) if g as i32 == want) {
+                                bad = true;
+                                break;
+                            }
+                        }
+                        if bad && found.len() < 6 {
+                            found.push((op, b as i16));
+                        }
+                    }
+                }
+                found
+            }));
+        }
+        let mut promoted = 0;
+        for h in handles {
+            for (op, b) in h.join().unwrap() {
+                if promoted < 24 && !bs.contains(&b) {
+                    out.emit(row(op, b));
+                    promoted += 1;
+                }
+            }
+        }
+        eprintln!("[c12] native sweep over all operand pairs of 8 operator impls: {} anomalous rows promoted", promoted);
+    }
     // the other operator impls: compound assignment (what Polynomial's own arithmetic uses), division, `multiply`
     {
         let mut fixed: Vec<i16> = vec![0, 1, 2, 6144, 6145, 12287, 12288, 12277, 8192];
@@ -271,6 +322,47 @@ pub fn c11(args: &Args) {
         out.emit(json!({"ev":"fft","n":n,"a":i16s_json(&zero),"out":vec_or_panic(|| verif::ntt_fft(&zero)),"tag":"fft-zero"}));
         out.emit(json!({"ev":"roundtrip","n":n,"a":i16s_json(&zero),"out":vec_or_panic(|| verif::ntt_ifft(&verif::ntt_fft(&zero))),"tag":"roundtrip-zero"}));
     }
+    // structured vectors fed DIRECTLY to the inverse (and the forward) transform: aligned blocks of extreme values (q-1, q-2 / 0, 1) of
+    // every block length and both phases -- in a transform with delayed reductions the accumulators reach their bound only
+    // when a whole block of inputs is extreme and the twiddle is large, which random data never produces
+    for w in 1..=10usize {
+        let n = 1usize << w;
+        if !thorough && ![2usize, 32, 128, 256, 512, 1024].contains(&n) {
+            continue;
+        }
+        let mut vs: Vec<Vec<i16>> = vec![vec![12288i16; n], (0..n).map(|i| (i * 12288 / n.max(2)) as i16).collect()];
+        let mut bl = 1;
+        while bl < n {
+            for phase in 0..2usize {
+                for (hi, lo) in [(12288i16, 0i16), (12287, 1)] {
+                    if !thorough && hi == 12287 && bl % 4 == 2 {
+                        continue;
+                    }
+                    vs.push((0..n).map(|i| if (i / bl + phase) % 2 == 0 { hi } else { lo }).collect());
+                }
+            }
+            bl *= 2;
+        }
+        // one extreme block pair among random data, at a few block positions
+        for bl in [8usize, 16, 32] {
+            if 2 * bl <= n {
+                for pos in [0usize, 1, 3, 5, (n / (2 * bl)).saturating_sub(1)] {
+                    if pos < n / (2 * bl) {
+                        let mut v: Vec<i16> = (0..n).map(|_| rng.gen_range(0..Q as i16)).collect();
+                        for i in 0..bl {
+                            v[pos * 2 * bl + i] = 12288;
+                            v[pos * 2 * bl + bl + i] = 0;
+                        }
+                        vs.push(v);
+                    }
+                }
+            }
+        }
+        for v in vs {
+            out.emit(json!({"ev":"ifft","n":n,"a":i16s_json(&v),"out":vec_or_panic(|| verif::ntt_ifft(&v)),"tag":"ifft-structured"}));
+            out.emit(json!({"ev":"fft","n":n,"a":i16s_json(&v),"out":vec_or_panic(|| verif::ntt_fft(&v)),"tag":"fft-structured"}));
+        }
+    }
     // prefix-related inputs in consecutive calls: v[..n] for growing and then shrinking n (a memo keyed by content without the
     // length, or a buffer not truncated, answers the previous call's result)
     {
@@ -393,6 +485,30 @@ pub fn u32field(args: &Args) {
             Outcome::Panic(_) => vec![-99999],
         };
         out.emit(json!({"ev":"u32mul","n":n,"a":a,"b":b,"prod":prod,"rt":rt,"tag":"mul"}));
+    }
+    // structured vectors over the whole range [0, p): aligned blocks of p-1 / 0 of every length and phase (delayed reductions)
+    for w in 1..=10usize {
+        let n = 1usize << w;
+        if !thorough && ![2usize, 32, 256, 1024].contains(&n) {
+            continue;
+        }
+        let mut vs: Vec<Vec<u32>> = vec![vec![q - 1; n]];
+        let mut bl = 1;
+        while bl < n {
+            for phase in 0..2usize {
+                vs.push((0..n).map(|i| if (i / bl + phase) % 2 == 0 { q - 1 } else { 0 }).collect());
+            }
+            bl *= 2;
+        }
+        vs.push((0..n).map(|_| rng.gen_range(0..q)).collect());
+        for v in vs {
+            let r = guarded(|| (verif::u32f_ifft(&verif::u32f_fft(&v)), verif::u32f_fft(&verif::u32f_ifft(&v)), verif::u32f_fft(&v)));
+            let (a, b, c) = match r {
+                Outcome::Ret(x) => x,
+                Outcome::Panic(_) => (vec![], vec![], vec![]),
+            };
+            out.emit(json!({"ev":"u32rt","n":n,"a":v,"fwd_inv":a,"inv_fwd":b,"fwd":c,"tag":"rt-structured"}));
+        }
     }
     println!("events {}", out.finish());
 }
